@@ -42,12 +42,22 @@ def gen(seed, tier, salt="c14", small=False):
             if algo == "gp":
                 c["pop"] = r.randrange(2, 10)
                 c["step"] = r.choice(STEPS)
+            # the evaluator is passed explicitly, left to the tracker's constructor, or the tracker itself is left to the algorithm
+            # (several searches run in one interpreter: each must start counting from zero)
+            c["ev"] = ["explicit", "tracker_default", "algo_default"][len(cases) % 3]
             cases.append(c)
     # target budgets: hit early, late, never (guarded by an evaluation budget), and disjunctions either way round
     for _ in range(60 if big else (8 if small else 24)):
         algo = r.choice(["rs", "opo", "hc", "gp"])
         table = sc.gen_table(r, r.randrange(3, 10), 1)
         target = r.choice([t[0] for t in table] + [sc.jq(99), sc.jq(sc.Fraction(1, 4))])
+        if r.random() < 0.5:
+            # fitness values just inside and just outside the tolerance band around the target (dyadic, so exact as floats), for
+            # targets of magnitude 0, 1 and 10^5: the band is absolute (|c - t| < 10^-4), not relative to the target
+            base = r.choice([sc.Fraction(0), sc.Fraction(1), sc.Fraction(-2), sc.Fraction(100000), sc.Fraction(-65536)])
+            near = [sc.Fraction(1, 16384), sc.Fraction(-1, 16384), sc.Fraction(1, 8192), sc.Fraction(-1, 8192), sc.Fraction(3), sc.Fraction(-1, 2), sc.Fraction(1, 1024)]
+            target = sc.jq(base)
+            table = [[sc.jq(base + r.choice(near))] for _ in range(r.randrange(3, 10))]
         cap = {"eval": r.randrange(1, 25)}
         b = r.choice([{"anyof": [{"target": target}, cap]}, {"anyof": [cap, {"target": target}]}, {"anyof": [{"anyof": [cap, {"target": target}]}, {"eval": 1000}]}])
         c = {"op": "c14", "algo": algo, "problem": {"kind": "so", "min": r.random() < 0.5}, "mo": False, "table": table, "budget": b, "seed": r.randrange(1000)}
